@@ -11,6 +11,7 @@ import random
 from harness import framework
 from harness.framework import canon
 from harness.sync_driver import SemReal, NOTO
+from harness.sync_modes import SemRealModes
 
 NW_GEN = 4
 
@@ -30,10 +31,35 @@ def _replay_one(extra, path, variant=0):
         real.close()
 
 
+def _replay_mode(extra, path, mode):
+    cfg = extra["cfg"]
+    cancelled = [s["args"][0] for s in path if s["act"] == "cancel"]
+    real = SemRealModes(cfg, NW_GEN, mode, cancelled_waiters=cancelled)
+    try:
+        for i, s in enumerate(path):
+            obs = canon(real.step(s["act"], s["args"]))
+            if obs != s["exp"]:
+                return {"step": i, "act": s["act"], "args": s["args"], "exp": s["exp"], "obs": obs, "mode": mode,
+                        "sig": {"act": s["act"], "kind_": cfg["kind"], "mode": mode, "exp_err": s["exp"]["err"], "obs_err": obs["err"],
+                                "st_differs": obs["st"] != s["exp"]["st"], "grants_differ": obs["grants"] != s["exp"]["grants"]}}
+        return None
+    finally:
+        real.close()
+
+
 def replayer(extra, path):
+    """plain calls, timedelta timeouts and absolute deadlines"""
     r = _replay_one(extra, path, 0)
     if r is None:
         r = _replay_one(extra, path, 1)
+    return r
+
+
+def replayer_modes(extra, path):
+    """the same behaviours through `async with` and the legacy `with (yield acquire())` form"""
+    r = _replay_mode(extra, path, "async_with")
+    if r is None:
+        r = _replay_mode(extra, path, "legacy")
     return r
 
 
@@ -85,10 +111,13 @@ def run(ctx):
     paths = ctx.gen_paths("sync", "Gen_Semaphore", "Gen_Semaphore.cfg", overrides={"L": L})
     ctx.replay(paths, replayer, nontrivial=lambda e, p: len(p) >= 2 and any(s["act"] != "advance" for s in p))
     ctx.cov["exhaustive"] = True
+    paths_m = ctx.gen_paths("sync", "Gen_Semaphore", "Gen_Semaphore.cfg", overrides={"L": L - 1})
+    ctx.replay(paths_m, replayer_modes, label="s2c-modes")
     # long seeded walks through larger constants
     sims = ctx.sim_paths("sync", "Gen_Semaphore", "Gen_Semaphore.cfg", num=ctx.pick(200, 3000), depth=40,
                          overrides={"L": 40, "NW": 4, "MaxValue": 6})
     ctx.replay(sims, replayer, label="s2c-sim")
+    ctx.replay(sims, replayer_modes, label="s2c-sim-modes")
     # 3. code -> spec: random recorded runs validated by TLC
     n = ctx.pick(300, 5000)
     nw = 70
@@ -103,7 +132,7 @@ def run(ctx):
 def replay(ctx, rec):
     d = rec["detail"]
     if "path" in d:
-        r = replayer(d["extra"], d["path"])
+        r = replayer(d["extra"], d["path"]) or replayer_modes(d["extra"], d["path"])
         print("replay:", "diverges " + framework.jdump(r) if r else "follows the specification")
         return 1 if r else 0
     print("trace replays are validated with: ./check C33 (trace stored in the replay file)")
